@@ -39,7 +39,24 @@ impl fend_core::Interrupt for Deadline {
 fn text(a: &Sx) -> Option<String> { a.as_bytes().and_then(|b| String::from_utf8(b.to_vec()).ok()) }
 fn texts(a: &Sx) -> Option<Vec<String>> { a.as_list()?.iter().map(text).collect() }
 
+/// Scripted random source: a fixed 64-bit LCG, restarted before every
+/// evaluation, so that `sample` / `roll` are a deterministic function of the
+/// value they are applied to (before and after a reload alike).
+static RNG_STATE: std::sync::atomic::AtomicU64 = std::sync::atomic::AtomicU64::new(0);
+const RNG_SEED: u64 = 0x9e37_79b9_7f4a_7c15;
+fn scripted_u32() -> u32 {
+    let s = RNG_STATE.load(Ordering::Relaxed).wrapping_mul(6364136223846793005).wrapping_add(1442695040888963407);
+    RNG_STATE.store(s, Ordering::Relaxed);
+    (s >> 33) as u32
+}
+fn new_ctx() -> fend_core::Context {
+    let mut c = fend_core::Context::new();
+    c.set_random_u32_fn(scripted_u32);
+    c
+}
+
 fn eval1(src: &str, ctx: &mut fend_core::Context, ms: u64) -> Sx {
+    RNG_STATE.store(RNG_SEED, Ordering::Relaxed);
     let int = Deadline(Instant::now() + Duration::from_millis(ms));
     let r = std::panic::catch_unwind(std::panic::AssertUnwindSafe(|| {
         fend_core::evaluate_with_interrupt(src, ctx, &int)
@@ -52,7 +69,7 @@ fn eval1(src: &str, ctx: &mut fend_core::Context, ms: u64) -> Sx {
 }
 
 fn history(ctx: &mut fend_core::Context, stmts: &[String]) -> Vec<Sx> {
-    stmts.iter().map(|s| eval1(s, ctx, 1500)).collect()
+    stmts.iter().map(|s| eval1(s, ctx, 4000)).collect()
 }
 
 /// every probe (with `$` replaced by the variable name) for every name, each on
@@ -82,7 +99,7 @@ fn run(op: &str, args: &[Sx]) -> Option<Sx> {
         // (save "stmt" ...) -> ("ok" image (stmt results...))
         "save" => {
             let Some(stmts) = args.iter().map(text).collect::<Option<Vec<_>>>() else { return Some(sx::bad()) };
-            let mut ctx = fend_core::Context::new();
+            let mut ctx = new_ctx();
             let rs = history(&mut ctx, &stmts);
             match save(&ctx) {
                 Ok(b) => sx::l(vec![sx::s("ok"), Sx::S(b), sx::l(rs)]),
@@ -94,15 +111,15 @@ fn run(op: &str, args: &[Sx]) -> Option<Sx> {
             let (Some(names), Some(ps), Some(stmts), Some(post)) =
                 (args.first().and_then(texts), args.get(1).and_then(texts), args.get(2).and_then(texts), args.get(3).and_then(texts))
                 else { return Some(sx::bad()) };
-            let mut ctx = fend_core::Context::new();
-            history(&mut ctx, &stmts);
-            history(&mut ctx, &post);
-            sx::l(vec![sx::s("ok"), probes(&ctx, &names, &ps)])
+            let mut ctx = new_ctx();
+            let r1 = history(&mut ctx, &stmts);
+            let r2 = history(&mut ctx, &post);
+            sx::l(vec![sx::s("ok"), probes(&ctx, &names, &ps), sx::l(r1), sx::l(r2)])
         }
         // (load image) -> ("ok" image2 max_alloc) | ("err" msg max_alloc) | ("panic" msg max_alloc)
         "load" => {
             let Some(img) = args.first().and_then(Sx::as_bytes) else { return Some(sx::bad()) };
-            let mut ctx = fend_core::Context::new();
+            let mut ctx = new_ctx();
             MAX_REQ.store(0, Ordering::Relaxed);
             let r = std::panic::catch_unwind(std::panic::AssertUnwindSafe(|| {
                 let mut rd = img;
@@ -125,13 +142,13 @@ fn run(op: &str, args: &[Sx]) -> Option<Sx> {
             let (Some(img), Some(names), Some(ps), Some(post)) =
                 (args.first().and_then(Sx::as_bytes), args.get(1).and_then(texts), args.get(2).and_then(texts), args.get(3).and_then(texts))
                 else { return Some(sx::bad()) };
-            let mut ctx = fend_core::Context::new();
+            let mut ctx = new_ctx();
             let mut rd = img;
             if let Err(e) = ctx.deserialize_variables(&mut rd) {
                 return Some(sx::l(vec![sx::s("err"), Sx::S(e.into_bytes())]));
             }
-            history(&mut ctx, &post);
-            sx::l(vec![sx::s("ok"), probes(&ctx, &names, &ps)])
+            let r2 = history(&mut ctx, &post);
+            sx::l(vec![sx::s("ok"), probes(&ctx, &names, &ps), sx::l(r2)])
         }
         // (sizes) -> (size_of::<usize>() isize::MAX (five container element sizes))
         "sizes" => sx::l(vec![sx::a(std::mem::size_of::<usize>()), sx::a(isize::MAX as u128),
